@@ -167,6 +167,9 @@ func (s *sqSubj[T]) Step(op Op, o *Oracle) {
 }
 
 func (s *sqSubj[T]) check(o *Oracle) {
+	if len(o.Active) == 0 {
+		return // C18 write phases: no observer may run on the container (it would warm lazily built state)
+	}
 	vals := s.c.Values()
 	if o.On("C05") || o.On("C16") {
 		tag := "C05"
